@@ -8,6 +8,7 @@ import os, re
 from vlib.engine import Prop, Failure
 from props import msagen as G
 from props import c01_autogen as AUTOGEN
+from props import c01_growth as GROWTH
 
 MODELLED = ["afa", "a2m", "clustal", "clustallike", "psiblast", "phylip", "phylips", "selex", "stockholm", "pfam"]                         # formats whose reader exists in the Lean model (text + digital, declared format)
 MODELLED_ABC = ["text", "amino", "dna", "rna"]
@@ -45,6 +46,7 @@ class C01(Prop):
         "phylip_read_all_total",
         "selexConfigs_valid", "selex_total", "selex_no_fault", "selex_eformat_has_message", "selex_ok_wellformed", "selex_read_all_total",
         "stoConfigs_valid", "stockholm_total", "stockholm_total_rest", "stockholm_no_fault", "stockholm_eformat_has_message", "stockholm_ok_wellformed",
+        "sto_growth_keeps_lens", "sto_growth_keeps_ogr_slot", "sto_expandseq_ogr",
         "cfgOf_valid", "opened_cfg_valid", "opened_read_good", "guess_no_fault", "open_total", "open_total_fmtd", "auto_total", "open_status_documented")] + [
         "EaselModel.Msafile.openModelW_zero", "EaselModel.Msafile.openModelW_auto", "EaselModel.Msafile.openModelW_no_fault",
         "EaselModel.Msafile.guessFormat_no_fault", "EaselModel.Msafile.guessAlphabet_no_fault", "EaselModel.Msafile.checkSeqUnknown_no_fault",
@@ -52,7 +54,9 @@ class C01(Prop):
         "EaselModel.Msafile.stockholmRead_good", "EaselModel.Msafile.stockholmRead_nofault",
         "EaselModel.Msafile.phylipRead_good", "EaselModel.Msafile.selexRead_good",
         "EaselModel.Msafile.afaRead_good", "EaselModel.Msafile.a2mRead_good", "EaselModel.Msafile.clustalRead_good",
-        "EaselModel.Msafile.psiblastRead_good", "EaselModel.Msafile.runLines_inv"]
+        "EaselModel.Msafile.psiblastRead_good", "EaselModel.Msafile.runLines_inv",
+        "EaselModel.Msafile.expandAll_inv", "EaselModel.Msafile.pdExpandSeq_sqlen", "EaselModel.Msafile.pdExpandSeq_perLen", "EaselModel.Msafile.pdExpandSeq_ogrLen",
+        "EaselModel.Msafile.pdExpandSeq_rest", "EaselModel.Msafile.msaExpand_rows", "EaselModel.Msafile.msaExpand_gr"]
     claimed = True
     technique = ("Lean 4 proof (totality, fault-freedom and well-formedness of an executable line-by-line model of the alignment readers, bounds-checked "
                  "auxiliary arrays) + exact differential correspondence of the model with the ASan/UBSan/LSan-built readers + property monitors on all ten formats")
@@ -82,7 +86,7 @@ class C01(Prop):
                   "differential run; ESL_BUFFER's refinement to the abstract line reader is property C05 (SELEX line pointers are abstracted to line contents); keyhash "
                   "lookups are abstracted to first-index-by-name (C19); allocation never fails; leaks are outside the model (LeakSanitizer per operation). "
                   "Known finding C01:selex-stream:stable-anchor-uaf (shared with C05): SELEX / autodetect inputs on stream and file-mode sources are kept below one page.")
-    diverge_is_violation = False
+    diverge_is_violation = True     # every op is a deterministic function of (bytes, format, alphabet, source) that the model specifies exactly (all ten readers + the open path)
     quick_budget_s = 75
     thorough_budget_s = 900
     trusted_base = ["hand model of the open path of esl_msafile.c (msafile_OpenBuffer, esl_msafile_GuessFileFormat, msafile_check_selex, esl_msafile_GuessAlphabet), esl_msafile_phylip.c (CheckFileFormat and its five helpers), "
@@ -266,6 +270,23 @@ class C01(Prop):
             stats["kinds"]["phynw"] = stats["kinds"].get("phynw", 0) + 1
             stats["formats"][f] = stats["formats"].get(f, 0) + 1
             out.append({"name": "phynw%d" % len(out), "ops": ops})
+        # 3h. allocation-growth shapes, ENUMERATED (props/c01_growth.py), every file valid by construction (`expect`): Stockholm with
+        #     16/17/32/33/64/65 sequences x 2-3 blocks x sparse unparsed/parsed #=GR and #=GC markup before / at / after each doubling point x
+        #     names introduced by the block or by a complete / partial / permuted #=GS header; the other growing readers with the same row
+        #     counts and with sequence lines of 127..257 bytes
+        for nm, data, exp in GROWTH.stockholm_cases(rng, quick):
+            f2 = rng.choice(["stockholm", "pfam", "auto"]); a2 = rng.choice(["amino", "dna", "text", "guess"])
+            s2, p2 = (rng.choice([("stream", 16), ("file", 64), ("stream", 0), ("allfile", 0)]) if f2 != "auto" else rng.choice([("mem", 0), ("allfile", 0)]))
+            ops = [self._op(data, "stockholm", "text", "mem", 0), self._op(data, f2, a2, s2, p2)]
+            stats["kinds"]["growth-sto"] = stats["kinds"].get("growth-sto", 0) + 1
+            out.append({"name": "growth:" + nm, "ops": ops, "expect": exp})
+        for nm, f, data, exp in GROWTH.other_cases(rng, quick):
+            a2 = rng.choice(["amino", "dna"])
+            if f != "selex": s2, p2 = rng.choice([("stream", 16), ("file", 128), ("stream", 0), ("allfile", 0), ("mmap", 0)])
+            else: s2, p2 = (rng.choice([("stream", 0), ("file", 0), ("allfile", 0)]) if len(data) < 3900 else rng.choice([("allfile", 0), ("mmap", 0)]))   # known finding: SELEX below one page
+            ops = [self._op(data, f, "text", "mem", 0), self._op(data, f, a2, s2, p2)]
+            stats["kinds"]["growth-" + f] = stats["kinds"].get("growth-" + f, 0) + 1
+            out.append({"name": "growth:" + nm, "ops": ops, "expect": exp})
         # 4. raw bytes
         for _ in range(n_raw):
             emit("raw", G.raw_bytes(rng), rng.choice(ALL_FORMATS + [None]))
@@ -328,6 +349,10 @@ class C01(Prop):
             o = toks[0][5:].split(":")
             if o[0] not in OK_OPEN: return Failure("monitor", "open returned undocumented status %s (%s)" % (o[0], what))
             if o[0] == "enoformat" and kv.get("fmt") != "auto": return Failure("monitor", "open returned enoformat for a declared format (%s)" % what)
+            exp = case.get("expect")
+            if exp is not None and (" rd=ok {n=%d;alen=%d;" % (exp["n"], exp["alen"])) not in l:
+                return Failure("monitor", "valid-by-construction file (%d sequences x %d columns) is not read back as such (%s): %s" % (
+                    exp["n"], exp["alen"], what, " ".join(t for t in toks if t.startswith(("open=", "rd=")))[:200]))
             if o[0] == "enoalphabet" and kv.get("abc") != "guess": return Failure("monitor", "open returned enoalphabet without alphabet guessing (%s)" % what)
             if len(o) > 1 and o[1] == "nomsg": return Failure("monitor", "open failed with %s and an empty message (%s)" % (o[0], what))
             nok = 0
